@@ -172,7 +172,8 @@ def run(ctx):
         def setup(interp):
             interp.stubs['mask_password'] = stub
             interp.types[SECRET] = 'str'
-        outcomes, _i = extract(world, thunk, setup=setup, depth=6)
+            interp.max_recursion = 6        # the recursion follows the data
+        outcomes, _i = extract(world, thunk, setup=setup, depth=9)
         notes = inexact_notes(outcomes)
         if notes:
             rep.undecided('R8.4', label, 'inexact: %s' % notes)
@@ -271,6 +272,37 @@ def run(ctx):
                                 (K('b'), K(2))], kind)
             analyse('nested %s without secrets in %s' % (inner_kind, kind),
                     build2)
+
+
+    # --- depth 3 and 4, alternating mapping types, lists as plain values
+    for top in ('dict', 'Mapping'):
+        def build3(top=top):
+            other = 'Mapping' if top == 'dict' else 'dict'
+            d4 = mapping([(K('api_key'), K('k')), (K('note'), K('--token t')),
+                          (K(4), K(4))], top, label='level4')
+            d3 = mapping([(K('deep'), d4), (K('auth_token'), d4),
+                          (K('l'), ListV([K('password=x'), d4]))], other,
+                         label='level3')
+            d2 = mapping([(K('mid'), d3), (K('PASSWORD2'), K(b'raw')),
+                          (K('x'), K(1.5))], top, label='level2')
+            return mapping([(K('outer'), d2), (K('secret_key'), d2),
+                            (K('plain'), K('text'))], other)
+        analyse('four levels starting with %s' % top, build3)
+    if ctx.thorough:
+        # width 5: every selection of entry kinds at two levels
+        entries = [(K('password'), K('p')), (K('user'), K('u')),
+                   (K(5), K('--secret s')), (K((1, 2)), K(None)),
+                   (K('Admin_Token9'), K(7))]
+        for r in (3, 4, 5):
+            for combo in itertools.permutations(entries, r):
+                if r == 5 and combo[0][0] != K('password'):
+                    continue
+
+                def buildw(combo=combo):
+                    inner = mapping(list(combo), 'Mapping', label='inner')
+                    return mapping(list(combo) + [(K('sub'), inner)], 'dict')
+                analyse('width %d: %s' % (r, [show(k) for k, _v in combo]),
+                        buildw)
 
 
 def _all_inputs(arg):
